@@ -958,4 +958,34 @@ theorem resolveEngine_eq (defs : List Def) (ii : Indexed) (h : build defs = some
   | some y => simp
 
 
+
+
+theorem execAddAll_total (ii : Indexed) (es : List Nat) (acc : List (Nat × Nat))
+    (hdis : ∀ e ∈ es, ∀ t ∈ acc, t.1 ≠ e) (hn : es.Nodup)
+    (hin : ∀ e ∈ es, ∃ k, findExchangeByExchangeId ii.exchanges e = some k) :
+    ∃ txs, execAddAll ii acc es = some txs := by
+  induction es generalizing acc with
+  | nil => exact ⟨acc, rfl⟩
+  | cons e t ih =>
+    obtain ⟨k, hk⟩ := hin e (by simp)
+    have hany : acc.any (fun t => decide (t.1 = e)) = false := by
+      rw [List.any_eq_false]; intro x hx; simpa using hdis e (by simp) x hx
+    have ⟨hne, hnt⟩ := List.nodup_cons.mp hn
+    have := ih (acc ++ [(e, k)]) (by
+      intro e' he' x hx
+      rcases List.mem_append.mp hx with hx | hx
+      · exact hdis e' (by simp [he']) x hx
+      · simp at hx; subst hx; intro heq; simp at heq; subst heq; exact hne he')
+      hnt (fun e' he' => hin e' (by simp [he']))
+    obtain ⟨txs, htxs⟩ := this
+    exact ⟨txs, by simp [execAddAll, execAdd, hk, hany, htxs]⟩
+
+theorem findExchange_total (defs : List Def) (ii : Indexed) (h : build defs = some ii)
+    (d : Def) (hd : d ∈ defs) : ∃ k, findExchangeByExchangeId ii.exchanges d.exchange = some k := by
+  obtain ⟨h1, _⟩ := build_some defs ii h
+  have he : d.exchange ∈ sortedExchanges defs := (mem_sortedExchanges _ _).mpr ⟨d, hd, rfl⟩
+  obtain ⟨ek, hek⟩ := List.mem_iff_getElem?.mp he
+  exact ⟨ek, by rw [h1]; exact (findExchange_iff _ (nodup_sortedExchanges defs) _ _).mpr hek⟩
+
+
 end BarterModel.Index
